@@ -11,9 +11,49 @@ import (
 	"encoding/json"
 	"fmt"
 	"os"
+	"runtime"
 	"runtime/debug"
 	"strings"
+	"time"
+	_ "unsafe"
 )
+
+// vTimeHook is time.verifNow of the patched time package of the native replay
+// build (see clockOverlay in gosym). Under the engine it is an ordinary unused
+// variable.
+//
+//go:linkname vTimeHook time.verifNow
+var vTimeHook func() (time.Time, bool)
+
+// vClockBase anchors the replayed monotonic readings.
+var vClockBase = time.Unix(1700000000, 0)
+
+// vClockNext replays the engine's clock model: clock reads made directly by
+// repository code get the readings of the model (inputs clk_N, in order); every
+// other caller (zap, context, grpc, testing, ...) keeps the real clock.
+func vClockNext() (time.Time, bool) {
+	if vS == nil {
+		return time.Time{}, false
+	}
+	pc, _, _, ok := runtime.Caller(2)
+	if !ok {
+		return time.Time{}, false
+	}
+	fn := runtime.FuncForPC(pc)
+	if fn == nil || !strings.HasPrefix(fn.Name(), "github.com/omec-project/upf-epc/") {
+		return time.Time{}, false
+	}
+	for vS.clkPos < len(vS.inputs) {
+		in := vS.inputs[vS.clkPos]
+		vS.clkPos++
+		if strings.HasPrefix(stripIdx(in.Name), "clk_") {
+			return vClockBase.Add(time.Duration(in.Val)), true
+		}
+	}
+	// more clock reads than the model made: keep increasing
+	vS.clkExtra++
+	return vClockBase.Add(time.Duration(1<<62) + time.Duration(vS.clkExtra)), true
+}
 
 func vStack() string { return string(debug.Stack()) }
 
@@ -41,6 +81,8 @@ type vState struct {
 	covers []string
 	failed []string // labels of failed assertions
 	misaligned string
+	clkPos     int
+	clkExtra   int
 }
 
 var vS *vState
@@ -214,6 +256,13 @@ func vIteBool(c bool, a, b bool) bool {
 }
 
 func vInEngine() bool                            { return false }
+
+// vAnonU16x2 calls, under the engine only, the function literal of parent whose
+// parameters are named params (the real SSA body, captured function literals
+// resolved). Natively a harness must reach the literal through its parent.
+func vAnonU16x2(parent, params string, a, b uint16) uint16 {
+	panic("vAnonU16x2 is engine-only")
+}
 func vSkipGo(name string)                        {}
 func vOverride(target string, fn interface{})    {}
 func vPeer(ch interface{})                       {}
@@ -257,6 +306,8 @@ type vReplayResult struct {
 
 func vRunOne(h func(), name string, inputs []vInputVal) (res vReplayResult) {
 	vS = &vState{inputs: inputs}
+	vTimeHook = vClockNext
+	defer func() { vTimeHook = nil }()
 	res.Harness = name
 	res.Kind = "none"
 	defer func() {
